@@ -11,7 +11,7 @@ from __future__ import annotations
 import operator
 import z3
 
-from .bexp import B, TRUE, FALSE, AND, OR, NOT, atom, to_z3, const
+from .bexp import B, TRUE, FALSE, AND, OR, NOT, atom, to_z3, const, compact
 
 
 class Unsupported(Exception):
@@ -28,8 +28,12 @@ class _Sentinel:
 
 NULL = _Sentinel("<NULL>")  # unbound local / empty stack slot
 UNDEF = _Sentinel("<UNDEF>")  # attribute / dict slot not present
+MISSING = _Sentinel("<MISSING>")  # lookup failed (internal)
 
 ATOMS = (int, str, bytes, bool, float, type(None))
+
+
+LIMITS = {'int_union': 8}
 
 
 class Sym:
@@ -131,6 +135,21 @@ def mk_union(pairs):
             order.append(k)
             continue
         groups[k][2].append((g, v))
+    # many distinct concrete ints (e.g. bit masks accumulated under symbolic conditions): one bit-vector term
+    nints = [k for k in order if k[0] == "c" and k[1] is int]
+    if (len(nints) > LIMITS['int_union'] or "bits" in symsorts) and all(0 <= k[2] < (1 << 62) for k in nints) and nints:
+        if "bits" not in symsorts:
+            symsorts.add("bits")
+            k0 = nints[0]
+            gs0, v0, mem0 = groups.pop(k0)
+            order[order.index(k0)] = ("s", "bits")
+            groups[("s", "bits")] = (gs0, Sym("bits", z3.BitVecVal(v0, 64)), [(g, Sym("bits", z3.BitVecVal(x, 64))) for g, x in mem0])
+            nints = nints[1:]
+        for k in nints:
+            gs1, v1, mem1 = groups.pop(k)
+            order.remove(k)
+            groups[("s", "bits")][0].extend(gs1)
+            groups[("s", "bits")][2].extend([(g, Sym("bits", z3.BitVecVal(x, 64))) for g, x in mem1])
     # fold concrete scalars into a symbolic group of the same sort
     if symsorts:
         for k in list(order):
@@ -151,13 +170,13 @@ def mk_union(pairs):
     out = []
     for k in order:
         gs, v, members = groups[k]
-        g = OR(*gs) if len(gs) > 1 else gs[0]
+        g = compact(OR(*gs) if len(gs) > 1 else gs[0])
         if k[0] == "s" and len(members) > 1:
             sort = k[1]
             if sort == "bool":
                 e = OR(*[AND(gi, (vi.e if type(vi) is Sym else const(bool(vi)))) for gi, vi in members])
                 v = sym_bool(e)
-            elif sort == "bv":
+            elif sort in ("bv", "bits"):
                 e = members[-1][1].e
                 for gi, vi in reversed(members[:-1]):
                     e = z3.If(to_z3(gi), vi.e, e)
@@ -414,6 +433,37 @@ def sym_binop(op, a, b):
     """a, b atomic (non-Union); at least one Sym.  Returns value."""
     sa = a.sort if type(a) is Sym else None
     sb = b.sort if type(b) is Sym else None
+    if sa == "bits" or sb == "bits":
+        def bz(v, sv):
+            if sv == "bits":
+                return v.e
+            if isinstance(v, bool):
+                v = int(v)
+            if isinstance(v, int) and 0 <= v < (1 << 62):
+                return z3.BitVecVal(v, 64)
+            raise Unsupported(f"bit-vector operation with {v!r}")
+        if op in ("==", "!=") and not ((sa or isinstance(a, int)) and (sb or isinstance(b, int))):
+            return op == "!="
+        za, zb = bz(a, sa), bz(b, sb)
+        if op == "&":
+            return _bits(za & zb)
+        if op == "|":
+            return _bits(za | zb)
+        if op == "^":
+            return _bits(za ^ zb)
+        if op == "==":
+            return sym_bool(atom(za == zb))
+        if op == "!=":
+            return sym_bool(atom(za != zb))
+        if op == ">":
+            return sym_bool(atom(z3.UGT(za, zb)))
+        if op == ">=":
+            return sym_bool(atom(z3.UGE(za, zb)))
+        if op == "<":
+            return sym_bool(atom(z3.ULT(za, zb)))
+        if op == "<=":
+            return sym_bool(atom(z3.ULE(za, zb)))
+        raise Unsupported(f"operator {op} on a bit-vector encoded integer")
     if sa == "bv" or sb == "bv":
         if op not in ("==", "!="):
             raise Unsupported("identifiers support only equality")
@@ -469,6 +519,12 @@ def sym_binop(op, a, b):
             r = za % zb
         return sym_num(z3.simplify(r))
     raise Unsupported(f"symbolic op {op} {a!r} {b!r}")
+
+
+def _bits(e):
+    if z3.is_bv_value(e):
+        return e.as_long()
+    return Sym("bits", e)
 
 
 def truth_atomic(v):
